@@ -329,7 +329,7 @@ func (e *vsEnv) upload(c *vsClient, a *vsAttempt) {
 		st, a.clientErr = u.Commit()
 	}
 	a.status, a.body = c.tr.status, c.tr.body
-	if a.fault.Kind == "cut-eof" {
+	if a.fault.Kind == "cut-eof" || a.fault.Kind == "cut" {
 		e.tr.mu.Lock()
 		a.cutClass = e.tr.lastCutClass[c.name]
 		delete(e.tr.cuts, c.name)
@@ -400,6 +400,9 @@ func (e *vsEnv) settle(attempts []*vsAttempt, faultsOn bool) {
 		ok := a.status == 200
 		if ok && a.fault.Kind == "cut-eof" && a.cutClass != "" && a.cutClass != "after-final-delimiter" {
 			r.Fail("all-or-nothing", "cleanly-truncated-body-committed/"+a.cutClass, "%s: the request body ended early (clean EOF after %d bytes, %s) but the server committed the upload: %d %q (sent %d files)", a.client, a.fault.Pos, a.cutClass, a.status, clipS(a.body), len(a.files))
+		}
+		if ok && a.fault.Kind == "cut" && strings.HasPrefix(a.cutClass, "broken:") && a.cutClass != "broken:after-final-delimiter" {
+			r.Fail("all-or-nothing", "truncated-body-committed", "%s: the request body broke off after %d bytes (%s) but the server committed the upload: %d %q", a.client, a.fault.Pos, a.cutClass, a.status, clipS(a.body))
 		}
 		if ok != (a.clientErr == nil) && !a.extended {
 			r.Fail("client-view", "client-server-disagree", "%s: server answered %d %q but the client reported err=%v", a.client, a.status, clipS(a.body), a.clientErr)
@@ -745,6 +748,10 @@ func (e *vsEnv) genAttempt(faultsOn bool, force *vsFault) *vsAttempt {
 	}
 	if T.Intn(40, "collide") == 0 {
 		opts.collide = true
+	}
+	if T.Intn(25, "wide-record") == 0 {
+		opts.wide = true
+		e.r.Hit("record with more labels than one insert batch holds")
 	}
 	for i := 0; i < nf; i++ {
 		name := []string{"bench.txt", "a/b/c.txt", "", `win\path.txt`, "new.txt", "old.txt"}[T.Intn(6, "fname")]
